@@ -260,7 +260,7 @@ func RunCheck(opts *CheckOpts) int {
 	// functions under contract for this property
 	var keys []string
 	for k, c := range prog.Contracts {
-		if c.Trusted || c.Spec {
+		if c.Trusted {
 			continue
 		}
 		if opts.AllFuncs || hasProp(c, prop) {
